@@ -8,7 +8,7 @@ import stages
 def codec(ctx, st):
     items, _ = stages.generate(ctx, st)
     rep = [v for v in items if isinstance(v, dict) and v.get("k") in ("frame", "tp")]
-    pkt = [v for v in items if isinstance(v, dict) and v.get("k") == "pkt"]
+    pkt = [v for v in items if isinstance(v, dict) and v.get("k") in ("pkt", "ackn")]
     base = {k: st[k] for k in ("gen_spec", "gen_cfg", "gen_mode", "gen_workers", "gen_timeout", "tags", "xss", "heap_gb")
             if k in st}
     orig = stages.generate
@@ -80,7 +80,12 @@ def signature(prop, kind, scenario, detail):
             if e == "frame":
                 return "trace;frame;%s" % _frame_class(last)
             if e == "tight":
-                return "trace;tight;kind=%s;added=%s" % ((last.get("f") or {}).get("k"), last.get("added"))
+                f = last.get("f") or {}
+                extra = ""
+                if f.get("k") == "ack":
+                    n = len(f.get("r") or [])
+                    extra = ";ranges=%s;room=%s" % ("<=64" if n <= 64 else ">64", last.get("room", "seeded"))
+                return "trace;tight;kind=%s;added=%s%s" % (f.get("k"), last.get("added"), extra)
             if e == "tp":
                 b = last.get("in") or []
                 return "trace;tp;first-id=%s;accepted=%s" % (b[0] if b else None, last.get("ok"))
